@@ -360,6 +360,34 @@ fn run_tamper(plan: &Plan, lib: &dyn Lib, rec: &mut Rec) {
         rec.expect("C02", "decision-equals-reference", o.is_ok() == e, || format!("msg-last-bit-or-append scheme={} g={} | Signature::verify says {} but an independent CoreVerify (draft tags) says {}; msg_len={}", scheme_name(scheme), g.name(), o.kind(), e, m2.len()));
         rec.expect("C02", "altered-tuple-rejected", !o.is_ok(), || format!("msg-last-bit-or-append scheme={} g={} | altered message accepted; msg_len={}", scheme_name(scheme), g.name(), m2.len()));
     }
+    // ... a signature the same key makes over the same message under an EARLIER draft's ciphersuite identifier (or another
+    // near-miss of the current tag): another group element, rejected by the draft equation and by the library
+    if let Some(skr) = refimpl::scalar_from_be(&a.sk) {
+        let tags = refimpl::historical_tags(g.sig_len() == 48);
+        let tag = &tags[(plan.seed as usize) % tags.len()];
+        let bref = Bls::with_tags(sig_grp(g), draft.clone());
+        let hashed: Vec<u8> = if sig[0] == 1 { let mut m = a.pk.clone(); m.extend_from_slice(&msg); m } else { msg.clone() };
+        let alt = refimpl::layout::tagged(sig[0], &bref.hash_msg(&hashed, tag).mul(&skr).to_bytes());
+        let o = rec.call(lib, g, Op::Verify, &[&alt, &a.pk, &msg]);
+        let e = ref_decision(g, &draft, &Tuple { pk: a.pk.clone(), sig: alt.clone(), msg: msg.clone() });
+        rec.expect("C02", "decision-equals-reference", o.is_ok() == e, || format!("signature-under-tag {:?} scheme={} g={} | Signature::verify says {} but an independent CoreVerify (draft tags) says {}", String::from_utf8_lossy(tag), scheme_name(scheme), g.name(), o.kind(), e));
+    }
+    // ... the verifier that takes its tag as an argument (`core_verify`): a signature made under (tag, shift || msg) presented
+    // under (tag || shift, msg) — the same bytes once tag and message are laid end to end, another input to hash-to-curve
+    // (which frames the tag by its length) — right after the honest one was verified, and the other way round
+    if let Some(skr) = refimpl::scalar_from_be(&a.sk) {
+        let bref = Bls::with_tags(sig_grp(g), draft.clone());
+        let base_tag = b"QUUX-V01-CS02-with-".to_vec();
+        let shift = vec![b'0' + (plan.seed % 10) as u8];
+        let long_tag = { let mut t = base_tag.clone(); t.extend_from_slice(&shift); t };
+        let m_long = { let mut m = shift.clone(); m.extend_from_slice(&msg); m };
+        let s_short = bref.hash_msg(&m_long, &base_tag).mul(&skr).to_bytes();
+        let s_long = bref.hash_msg(&msg, &long_tag).mul(&skr).to_bytes();
+        for (k, (sg, m, tag, must)) in [(&s_short, &m_long, &base_tag, true), (&s_short, &msg, &long_tag, false), (&s_long, &msg, &long_tag, true), (&s_long, &m_long, &base_tag, false)].iter().enumerate() {
+            let o = rec.call(lib, g, Op::CoreVerify, &[&a.pk, sg, m, tag]);
+            rec.expect("C02", "decision-equals-reference", o.is_ok() == *must, || format!("core_verify tag-boundary-shift step {} g={} | core_verify says {} where CoreVerify over hash_to_curve(msg, tag) says {}", k, g.name(), o.kind(), must));
+        }
+    }
     // ... and tuples whose points never went through a decoder (the public constructors take any curve point): the
     // identity key with a small-order "signature" T satisfies the pairing equation for every message; the honest key
     // with the identity signature; a small-order key with the identity signature
@@ -780,6 +808,28 @@ fn run_interop(plan: &Plan, lib: &dyn Lib, rec: &mut Rec) {
         let ok = Pt::from_bytes(p).map(|q| b.pop_verify(&pk_ref, &q)).unwrap_or(false);
         rec.expect("C03", "reference-accepts-library-signature", ok, || format!("ref-pop-verify g={} | the reference rejects the library's proof of possession", g.name()));
     }
+    // the trait-level entry points take the domain-separation tag as an argument: (tag, message) pairs whose
+    // concatenations coincide — one tag a proper prefix of the other, the message boundary shifted by the difference —
+    // are different inputs to hash-to-curve (it frames the tag by its length). Back to back, both ways round.
+    {
+        let base_tag = b"QUUX-V01-CS02-with-".to_vec();
+        let shift = x.bytes(1 + (plan.seed % 3) as usize);
+        let long_tag = { let mut t = base_tag.clone(); t.extend_from_slice(&shift); t };
+        let m_long = { let mut m = shift.clone(); m.extend_from_slice(&msg); m };
+        let seq: [(&Vec<u8>, &Vec<u8>); 4] = [(&base_tag, &m_long), (&long_tag, &msg), (&base_tag, &m_long), (&long_tag, &msg)];
+        for (k, (tag, m)) in seq.iter().enumerate() {
+            let want = b.hash_msg(m, tag).mul(&sk).to_bytes();
+            let got = rec.call(lib, g, Op::CoreSign, &[&sk_bytes, m, tag]);
+            rec.expect("C03", "signature-equals-reference", got.first() == Some(want.as_slice()), || format!("core_sign tag-boundary-shift step {} g={} | core_sign under a {}-byte tag over a {}-byte message differs from hash_to_curve(msg, tag)*sk", k, g.name(), tag.len(), m.len()));
+            // and the other pair's signature does not verify here
+            let (otag, om) = seq[(k + 1) % 2];
+            let other = b.hash_msg(om, otag).mul(&sk).to_bytes();
+            let v = rec.call(lib, g, Op::CoreVerify, &[&pk_bytes, &other, m, tag]);
+            rec.expect("C03", "library-accepts-reference-signature", !v.is_ok(), || format!("core_verify tag-boundary-shift step {} g={} | a signature made under ({}-byte tag, {}-byte message) verifies under ({}-byte tag, {}-byte message)", k, g.name(), otag.len(), om.len(), tag.len(), m.len()));
+            let v = rec.call(lib, g, Op::CoreVerify, &[&pk_bytes, &want, m, tag]);
+            rec.expect("C03", "library-accepts-reference-signature", v.is_ok(), || format!("core_verify own step {} g={} | the reference's signature under a caller-supplied tag is rejected: {:?}", k, g.name(), v));
+        }
+    }
     // aggregates: n signers, one scheme
     let n = x.range(2, 6) as usize;
     let s = *x.pick(&Scheme::ALL);
@@ -932,6 +982,18 @@ fn run_registry(plan: &Plan, lib: &dyn Lib, rec: &mut Rec) {
             let exp = expected(&p.pk, &sg[1..]);
             rec.case(&[9, g as u64, *class, s as u64, 96], true);
             rec.expect("C09", "accepted-iff-made-by-that-key", out.is_ok() == exp, || format!("own-{}-signature-over-pk key_class={} g={} | registry says {}, sk*H(pk) check says {}", scheme_name(s), class, g.name(), out.kind(), exp));
+        }
+    }
+    // "proofs" the same key makes over its public-key bytes under the ciphersuite identifiers of EARLIER drafts and other
+    // near-misses of the current tags (what a compatibility path would accept): other points, not proofs
+    if let Some(skr) = refimpl::scalar_from_be(&p.sk) {
+        for (ti, tag) in refimpl::historical_tags(g.sig_len() == 48).iter().enumerate() {
+            let alt = b.hash_msg(&p.pk, tag).mul(&skr).to_bytes();
+            rec.fault("byz-historical-tag");
+            let out = rec.call(lib, g, Op::PopVerify, &[&alt, &p.pk]);
+            let exp = expected(&p.pk, &alt);
+            rec.case(&[9, g as u64, *class, ti as u64, 98], true);
+            rec.expect("C09", "accepted-iff-made-by-that-key", out.is_ok() == exp, || format!("proof-under-tag {:?} key_class={} g={} | registry says {}, sk*H(pk) check under the library's own PoP tag says {}", String::from_utf8_lossy(tag), class, g.name(), out.kind(), exp));
         }
     }
     // the honest proof plus a point of small order (T = r*Q): other bytes, same pairing value — a decoder that
